@@ -44,7 +44,12 @@ inline std::vector<std::string> split(const std::string& s, char sep) {
 // results go to a private copy of the original stdout; fd 1 is redirected to stderr so that
 // library chatter ("[Info] ...") cannot corrupt the line protocol
 extern FILE* out;
-inline void putline(const std::string& l) { fputs(l.c_str(), out); fputc('\n', out); fflush(out); }
+inline void putline(const std::string& l0) {
+	// one response line per request, whatever the library put into a token (log labels, exception texts)
+	std::string l = l0;
+	for (size_t i = 0; i < l.size(); i++) if (l[i] == '\n' || l[i] == '\r' || l[i] == '\0') l[i] = '?';
+	fputs(l.c_str(), out); fputc('\n', out); fflush(out);
+}
 
 typedef int (*cmd_fn)(int argc, char** argv);
 struct Cmd { const char* name; cmd_fn fn; };
@@ -63,3 +68,20 @@ int cmd_lua(int, char**);
 int cmd_tables(int, char**);
 int cmd_validate(int, char**);
 int cmd_trie(int, char**);
+
+// the clock the library's timers run on: libevent (without EVENT_BASE_FLAG_PRECISE_TIMER) reads CLOCK_MONOTONIC_COARSE, which lags
+// behind CLOCK_MONOTONIC by up to a tick - and by tens of milliseconds on a loaded or frequently paused virtual machine. Stamps that
+// are compared with delays are taken from the same clock, so that "not before its delay has elapsed" is judged on the time base the
+// implementation can see.
+#include <time.h>
+namespace uv {
+inline long coarseMs() {
+	struct timespec ts;
+#ifdef CLOCK_MONOTONIC_COARSE
+	clock_gettime(CLOCK_MONOTONIC_COARSE, &ts);
+#else
+	clock_gettime(CLOCK_MONOTONIC, &ts);
+#endif
+	return (long)ts.tv_sec * 1000L + ts.tv_nsec / 1000000L;
+}
+}
